@@ -3,6 +3,13 @@
  * legacy entry points compute the same results as their isal_ counterparts. */
 #include "isal_entries.h"
 static char rbuf[300];
+/* FIPS_MODE build: the module is put in the operational state; entry points of non-approved algorithms answer FIPS_INVALID_ALGO to every call */
+#ifdef VERIF_FIPS
+extern void asm_set_self_tests_status(int);
+static int unapproved(const entry_t *e) { return strstr(e->name, "md5") || strstr(e->name, "sm3") || strstr(e->name, "mh_sha") || strstr(e->name, "rolling"); }
+#else
+static int unapproved(const entry_t *e) { (void) e; return 0; }
+#endif
 
 static void test_entry(entry_t *e, uint64_t c)
 {
@@ -32,10 +39,12 @@ static void test_entry(entry_t *e, uint64_t c)
                   clog_on = 0; } }
                 feat(mix64(0x9a, mix64((uint64_t) (e - entries), s)));
                 if (faulted) { snprintf(key, sizeof key, "param-deref %s", e->name); out_viol("C16", key, rbuf, "%s with NULL mask %x dereferenced an argument (fault at %p) before refusing the call", e->name, s, fault_last.addr); continue; }
+                if (unapproved(e) && !faulted && rc == ISAL_CRYPTO_ERR_FIPS_INVALID_ALGO) continue;
                 int ok = 0; for (int k = 0; k < nacc; k++) if ((unsigned) rc == accept[k]) ok = 1;
                 if (rc == 0) { snprintf(key, sizeof key, "param-null-accepted %s", e->name); out_viol("C16", key, rbuf, "%s with NULL mask %x returned 0", e->name, s); }
                 else if (!ok) { snprintf(key, sizeof key, "param-wrong-code %s", e->name); out_viol("C16", key, rbuf, "%s with NULL mask %x returned %d, not the documented code of any missing argument", e->name, s, rc); }
         }
+        if (unapproved(e)) return;
         /* (b) one scalar out of domain, everything else valid: documented code, outputs untouched */
         for (int b = 0; b < e->nbad; b++) {
                 alloc_valid(e, &r);
@@ -68,6 +77,21 @@ static void test_entry(entry_t *e, uint64_t c)
                                 break;
                         }
                 }
+                free_valid(e);
+        }
+        /* (b2) the largest length of the documented domain is not refused: with the data pointers aimed into the PROT_NONE region a call that
+         * passed its parameter checks faults on its first data access, one that refuses returns the length code */
+        if (strstr(e->name, "gcm") && e->nbad && e->bad[0].arg == 4 && e->bad[0].value == ISAL_GCM_MAX_LEN + 1) {
+                alloc_valid(e, &r);
+                uint64_t v[10] = { 0 };
+                for (int i = 0; i < e->nargs; i++) v[i] = e->a[i].kind == 'S' ? e->a[i].valid : (uint64_t) (uintptr_t) bufs[i];
+                v[4] = ISAL_GCM_MAX_LEN; v[2] = v[3] = (uint64_t) (uintptr_t) gnone_ptr();
+                snprintf(rbuf, sizeof rbuf, "{\"engine\":\"params\",\"entry\":\"%s\",\"max_len\":1,\"seed\":%llu,\"case\":%llu}", e->name, (unsigned long long) g_seed, (unsigned long long) c);
+                LABEL("%s len=ISAL_GCM_MAX_LEN", e->name);
+                int rc = -12345, faulted = GUARDED(rc = call(e, v));
+                cur_label[0] = 0;
+                out_count("max_length_calls", 1);
+                if (!faulted && rc != 0) { snprintf(key, sizeof key, "param-max-length-refused %s", e->name); out_viol("C16", key, rbuf, "%s returned %d for len = ISAL_GCM_MAX_LEN, the largest length of the documented domain", e->name, rc); }
                 free_valid(e);
         }
         /* (c) in-domain calls, including the permitted NULLs, return 0 */
@@ -207,9 +231,14 @@ int main(int argc, char **argv)
 {
         out_init(argc, argv);
         if (ref_selfcheck()) out_err("reference oracle self-check failed");
+#ifdef VERIF_FIPS
+        asm_set_self_tests_status(0);
+#endif
         for (uint64_t c = g_from; c < g_from + g_count; c++) {
                 for (int i = 0; i < NENT; i++) test_entry(&entries[i], c);
+#ifndef VERIF_FIPS
                 for (int k = 0; k < 20; k++) legacy_case(c * 20 + (uint64_t) k);
+#endif
         }
         printf("{\"t\":\"called\",\"names\":[");
         for (int i = 0; i < NENT; i++) printf("%s\"%s\"", i ? "," : "", entries[i].name);
